@@ -61,6 +61,10 @@ def lmpdat(masses):
     return s
 
 
+SEQ_ORDERS = [[0.5, 0.1, 0.01, 0.5], [0.01, 0.1, 0.5, 0.01], [0.1, 0.5, 0.1], [0.5, 0.01]]
+SEQ_MASSES = [12.3, 58.8, 12.05, 15.95, 39.5, 126.95, 209.0, 1.05, 247.0, 100.0]
+
+
 def plan(tier, seed):
     scs = []
     for ti, tau in enumerate(TAUS):
@@ -68,8 +72,9 @@ def plan(tier, seed):
         for i in range(0, len(ms), 25):
             scs.append(dict(kind='mass', tau=ti, lo=i, hi=min(len(ms), i + 25)))
     scs += [dict(kind='cycle', lo=i, hi=min(len(TABLE), i + 10)) for i in range(0, len(TABLE), 10)]
+    scs += [dict(kind='sequence', order=o) for o in range(len(SEQ_ORDERS))]
     return dict(scenarios=scs, exhaustive=True, chunk=4,
-                menus=dict(table_entries=len(TABLE), tolerances=TAUS, routes=['guess_elements_from_masses', 'load_lmpdat single type', 'load_lmpdat mixed with non-atomic type', 'load_lmpdat mixed with valid type', 'write/read cycle per element']),
+                menus=dict(table_entries=len(TABLE), tolerances=TAUS, routes=['guess_elements_from_masses', 'load_lmpdat single type', 'load_lmpdat mixed with non-atomic type', 'load_lmpdat mixed with valid type', 'write/read cycle per element', 'call histories with changing tolerances (same process)']),
                 bounds=dict(), rule='every table entry x offset x tolerance, every adjacent-pair midpoint/boundary, every wide gap; non-trivial = mass within tolerance of >= 2 elements or of none',
                 assumptions=['the mass table mofun/atomic_masses.py is the parameter of the property (read from the repo)',
                              'masses within 1e-9 of a tolerance boundary are skipped (undecidable in floating point)'])
@@ -91,6 +96,28 @@ def run(sc, ctx):
             out['outcomes'][key] = out['outcomes'].get(key, 0) + 1
             if len(got) != 1 or got[0] not in exp or (len(exp) == 1 and got[0] != el):
                 out['violations'].append(viol('cycle', 'cycle', 'element %s (mass %r) came back as %r after a write/read cycle; nearest within 0.1: %s' % (el, m, got, sorted(exp)), sc, element=el))
+        return out
+    if sc['kind'] == 'sequence':
+        # histories of calls in one process: the answer for a mass must depend on the tolerance of *this* call only
+        for route in ('helper', 'loader'):
+            for tau in SEQ_ORDERS[sc['order']]:
+                for m in SEQ_MASSES:
+                    exp = ref_mass(m, tau)
+                    if route == 'helper':
+                        r, err = call(guess_elements_from_masses, [m], max_delta=tau)
+                        got = None if err else r
+                    else:
+                        b, err = call(Atoms.load_lmpdat, io.StringIO(lmpdat([m])), guess_atol=tau)
+                        got = None if err else [str(x) for x in b.atom_type_elements]
+                        if got == ['1']:
+                            got = None
+                    out['evals'] += 1; out['compared'] += 1
+                    ok = (got is None and not exp) or (got is not None and len(got) == 1 and got[0] in exp)
+                    if not ok:
+                        out['violations'].append(viol('nearest', 'history-dependent', 'after the tolerance sequence %r, %s with tolerance %g gives %r for mass %r; nearest within tolerance: %s' % (
+                            SEQ_ORDERS[sc['order']], route, tau, got, m, sorted(exp)), sc))
+        out['hashes'].add(h64(('seq', sc['order']))); out['nontrivial'] += 1
+        out['outcomes']['sequence'] = 1
         return out
     tau = TAUS[sc['tau']]
     ms = masses_for(tau, ctx['tier'] == 'thorough')[sc['lo']:sc['hi']]
